@@ -623,7 +623,7 @@ func init() {
 			if tier == "thorough" {
 				return 16
 			}
-			return 4
+			return 8
 		},
 		Timeout:    func(tier string) time.Duration { return map[string]time.Duration{"quick": 20 * time.Minute, "thorough": 90 * time.Minute}[tier] },
 		Run:        c07Run,
